@@ -465,7 +465,7 @@ impl<'a> Sc<'a> {
                 s.mtx_val[m as usize] += 1;
                 done!(s.mtx_val[m as usize])
             }
-            Op::Get { m } => done!(s.mtx_val[m as usize]),
+            Op::Get { m } | Op::MtxGetMut { m } | Op::MtxIntoInner { m } => done!(s.mtx_val[m as usize]),
             Op::Read { r } | Op::TryRead { r } => {
                 let r = r as usize;
                 let is_try = matches!(op, Op::TryRead { .. });
@@ -512,7 +512,7 @@ impl<'a> Sc<'a> {
                 }
                 done!()
             }
-            Op::RwGet { r } => done!(s.rw_val[r as usize]),
+            Op::RwGet { r } | Op::RwGetMut { r } | Op::RwIntoInner { r } => done!(s.rw_val[r as usize]),
             Op::CvWait { cv, m } | Op::CvWaitWhileZero { cv, m } => {
                 let (cv, m) = (cv as usize, m as usize);
                 let pred = matches!(op, Op::CvWaitWhileZero { .. });
